@@ -320,13 +320,15 @@ def task_bonded_groups(pr, repo):
 
 
 def run(pr, repo):
-    from . import C01, C17
+    from . import C01, C17, C11
     # classification does not look at attached hydrogens (what makes --protonate-all harmless for the census)
     pr.parallel([(task_stutter, (t,)) for t in reader.TAGS] + [(task_absorb, ()), (task_element, ()), (task_protonate, ()),
                                                                 (C01.task_classify, ()), (task_bonded_groups, ()),
                                                                 # constructed hydrogens are stored ON the 0.001 grid, i.e. exactly as
                                                                 # a written file carries them (own hydrogens fed back: same numbers)
-                                                                (C17.task_add_proton, ())])
+                                                                (C17.task_add_proton, ()),
+                                                                # kept hydrogens are bonded to their heavy atom only (never to each other)
+                                                                (C11.task_check_distance, ())])
     task_columns(pr, repo)
     pr.assumptions += ['4-character atom names without a letter in columns 13-14 make set_properties raise IndexError (not claimed)',
                        'stutter/simulation rule; hydrogens are assumed to sit inside their residue block (HY pre)',
